@@ -139,8 +139,15 @@ struct Vector {
 
     /// Appends the `value` as a new element to the end of this vector.
     void push_back(const T &value) {
-        detach(inner->size + 1);
-        new (end()) T(value);
+        if (inner->refcount != 1 || inner->size + 1 > inner->capacity) {
+            // `value` may refer to an element of this vector, whose storage is about to be
+            // replaced: copy it first.
+            T copy(value);
+            detach(inner->size + 1);
+            new (end()) T(std::move(copy));
+        } else {
+            new (end()) T(value);
+        }
         inner->size++;
     }
 
